@@ -207,6 +207,8 @@ func main() {
 		cmdCoverage(os.Args[2:])
 	case "snapshot-names":
 		cmdSnapshotNames(os.Args[2:])
+	case "funcs":
+		cmdFuncs(os.Args[2:])
 	default:
 		fmt.Println("unknown command")
 		os.Exit(2)
@@ -227,6 +229,9 @@ func cmdSweep(args []string) {
 	if err != nil {
 		fmt.Fprintln(os.Stderr, err)
 		os.Exit(2)
+	}
+	for _, mf := range g.missingContractFuncs() {
+		fmt.Printf("CONTRACT-WITHOUT-FUNCTION %s (%s:%d)\n", mf.fnKey, mf.file, mf.line)
 	}
 	var kinds map[string]bool
 	if *kindsF != "" {
@@ -520,5 +525,29 @@ func cmdCoverage(args []string) {
 		}
 		sort.Strings(ps)
 		fmt.Printf("%4d instrs  %3d functional obligations  %3d selected  %-60s %s\n", r.instrs, r.fn, r.sel, r.key, strings.Join(ps, ","))
+	}
+}
+
+// cmdFuncs prints "<function key>\t<file>" for every function of the module (closures under their parent's file).
+func cmdFuncs(args []string) {
+	fs := flag.NewFlagSet("funcs", flag.ExitOnError)
+	dir := fs.String("dir", "/repo", "repository")
+	fs.Parse(args)
+	repoDir = *dir
+	g, err := loadGen(*dir)
+	if err != nil {
+		fmt.Println("LOAD-ERROR:", err)
+		os.Exit(2)
+	}
+	for _, fn := range g.allFuncs {
+		root := fn
+		for root.Parent() != nil {
+			root = root.Parent()
+		}
+		pos := g.prog.Fset.Position(root.Pos())
+		if !pos.IsValid() {
+			continue
+		}
+		fmt.Printf("%s\t%s\n", g.fnKey(fn), strings.TrimPrefix(pos.Filename, repoDir+"/"))
 	}
 }
